@@ -130,6 +130,10 @@ def _capture_from_real_texts(out):
             if name not in SEVEN:
                 continue
             texts = [t for _n, t in wild.snippets(name)] + [malformed.corpus_text(name, n) for n in malformed.corpus_files(name)[:2]]
+            # one LARGE file (more than 20 000 code tokens): fast paths that switch on above a size threshold build their patterns only then
+            unit = dict(wild.snippets(name)).get("long-identifiers", "")
+            big = max((malformed.corpus_text(name, n) for n in malformed.corpus_files(name)), key=len, default="")
+            texts.append((big + "\n") * (1 + 130000 // max(1, len(big))) if big else unit * 800)
             known = {expr_key(e) for _r, e in out[name]}
             for text in texts:
                 del seen_now[:]
